@@ -646,6 +646,17 @@ impl FsTzdbProvider {
     }
 }
 
+#[cfg(feature = "verif_hooks")]
+impl FsTzdbProvider {
+    /// Verification hook: a provider whose cache already holds `tzif` under `identifier`,
+    /// so that the provider entry points can be driven without the file system.
+    pub fn verif_with_cached(identifier: &str, tzif: Tzif) -> Self {
+        let provider = Self::default();
+        provider.cache.borrow_mut().insert(identifier.into(), tzif);
+        provider
+    }
+}
+
 impl TimeZoneProvider for FsTzdbProvider {
     fn check_identifier(&self, identifier: &str) -> bool {
         if let Some(index) = SINGLETON_IANA_NORMALIZER.available_id_index.get(identifier) {
